@@ -1,6 +1,7 @@
 SPECIFICATION Spec
 CONSTANTS MaxFills = 2
   Weights <- W3
+  Twin = FALSE
   EdgeChoices <- EdgesQuick
 VIEW view
 INVARIANT TypeOK
